@@ -30,7 +30,7 @@ REQUIRED = ["contract:CVR.make_phantoms", "accounting_checked:style", "accountin
             "pool_means_with_phantoms_checked", "pool_means_with_phantoms_checked:assorter_bound_not_1",
             "audit_wide_max_cards_differs_from_stratum_bound", "phantom_mvrs_for_sampled_phantom_cards_checked",
             "phantom_mvrs_for_sampled_phantom_cards_checked:another_prefix", "contest_with_card_bound_zero", "call_on_a_list_that_already_holds_phantoms:no_style",
-            "phantom_manual_record_built_by_from_raire", "phantom_mvrs_for_manifest_lookups_checked", "assorter:plurality", "assorter:supermajority", "assorter:irv"]
+            "phantom_manual_record_built_by_from_raire", "phantom_mvrs_for_manifest_lookups_checked", "phantom_mvrs_for_manifest_lookups_checked:hart", "assorter:plurality", "assorter:supermajority", "assorter:irv"]
 ASSUMPTIONS = ["card bounds >= number of records listing the contest; with style the input list holds no phantoms (the "
                "function is documented for 'the reported CVRs'); without style it may",
                "a phantom labelled pooled inside a pooled batch is scored with that batch's mean by design (C03 depends "
@@ -290,6 +290,24 @@ def run_case(es, rec):
     if got_ids != want_ids or any((not m.phantom) or m.votes for m in lk[2]):
         rec.violation("c08.worstcase", "sampled_phantom_cards_do_not_get_phantom_manual_records:manifest_lookup",
                       {"got": got_ids[:8], "want": want_ids[:8], "sample": nums})
+        return
+    # the same through the other vendor's lookup (Hart numbers cards from 0): every sampled number at or beyond the listed
+    # cards, and no other, gets a phantom manual record
+    from shangrla.formats.Hart import Hart
+    hman = pd.DataFrame({"Container": [f"box {j}" for j in range(len(keys))], "Tabulator": [str(k[0]) for k in keys],
+                         "Batch Name": [str(k[1]) for k in keys], "Number of Ballots": list(man["Total Ballots"])})
+    ok, hp = rec.guard("c08.call:Hart.prep_manifest", Hart.prep_manifest, hman, total + extra, total)
+    if not ok:
+        return
+    hnums = [n - 1 for n in nums]
+    ok, hl = rec.guard("c08.call:Hart.sample_from_manifest", Hart.sample_from_manifest, hp[0], hnums)
+    if not ok:
+        return
+    want_n = sum(1 for n in hnums if n >= total)
+    rec.count("phantom_mvrs_for_manifest_lookups_checked:hart")
+    if len(hl[2]) != want_n or len({m.id for m in hl[2]}) != want_n or any((not m.phantom) or m.votes for m in hl[2]):
+        rec.violation("c08.worstcase", "sampled_phantom_cards_do_not_get_phantom_manual_records:hart_manifest_lookup",
+                      {"got": sorted(m.id for m in hl[2])[:8], "phantom_numbers_sampled": sorted(n for n in hnums if n >= total), "listed_cards": total})
         return
     # pooled phantom CVRs enter the audit only through their batch's mean: each must contribute exactly 1/2 to the batch
     # total (reference: sum of reference assorter values of the batch's real CVRs + 1/2 per phantom)
